@@ -54,20 +54,58 @@ def d1_getitem(ctx, RA):
     if f is None:
         raise AnalysisError('RaggedArray.__getitem__ vanished')
     item = [p for p in f.params if p != 'self'][0]
-    gates = [n for n in own_nodes(f.node) if isinstance(n, ast.If) and always_raises(n.body)
-             and 'TypeError' in raised_names(n.body) and item in names_in(n.test)
-             and ('np.integer' in norm(n.test) or 'int' in norm(n.test))]
     subs = [n for n in own_nodes(f.node) if isinstance(n, ast.Subscript) and isinstance(n.ctx, ast.Load)
             and subarray_role(ctx, n.value, f) in ('VALUESDIR', 'INDICESDIR')]
-    ctx.decide(bool(gates) and all(must_precede(f, s, gates) for s in subs), 'R-DOM', 'D1', f, gates[0] if gates else None,
-               'integer-gate', 'RaggedArray.__getitem__: non-integer indices raise TypeError before anything is read',
-               detail='bool/float/slice indices reach NumPy')
-    if gates:
-        t = gates[0].test
-        ok = isinstance(t, ast.UnaryOp) and isinstance(t.op, ast.Not) and isinstance(t.operand, ast.Call) and \
-            dotted(t.operand.func) in ('np.issubdtype', 'isinstance') and 'integer' in norm(t.operand) or \
-            (isinstance(t, ast.UnaryOp) and 'int' in norm(t.operand))
-        ctx.decide(ok, 'R-DOM', 'D1', f, gates[0], 'integer-gate-shape', 'the gate is `not <integer test>(item)`', detail=f'gate is {norm(t)}')
+    # The type gate is decided per *kind of index* by folding the type tests (table of what the recognised tests
+    # answer for each kind) and exploring the CFG: integers reach the reads, everything else ends in TypeError
+    # before any read.  Independent of polarity / layout of the test.
+    from ..pathcond import reach_under, outcome_under
+    from ..rules import eval_bool
+    KINDS = {'int': True, 'numpy integer': True, 'bool': False, 'float': False, 'slice': False, 'str': False}
+    CLS = {'int': {'int', 'bool'}, 'np.integer': {'numpy integer'}, 'numpy.integer': {'numpy integer'},
+           'numbers.Integral': {'int', 'bool', 'numpy integer'}, 'Integral': {'int', 'bool', 'numpy integer'},
+           'bool': {'bool'}, 'float': {'float'}, 'np.floating': set(), 'slice': {'slice'}, 'str': {'str'},
+           'np.int64': {'numpy integer'}, 'np.bool_': set()}
+    ISSUB = {'np.integer': {'int', 'numpy integer'}, 'numpy.integer': {'int', 'numpy integer'},
+             'np.signedinteger': {'int', 'numpy integer'}, 'int': {'int', 'numpy integer'}}
+    g = cfg_of(f)
+    wrong, unknown = [], False
+    for kind, accept in KINDS.items():
+        def atoms(e, kind=kind):
+            if isinstance(e, ast.Call) and dotted(e.func) in ('np.issubdtype', 'numpy.issubdtype') and len(e.args) == 2 and \
+                    norm(e.args[0]) in (f'type({item})', f'{item}.__class__') and norm(e.args[1]) in ISSUB:
+                return kind in ISSUB[norm(e.args[1])]
+            if isinstance(e, ast.Call) and dotted(e.func) == 'isinstance' and len(e.args) == 2 and norm(e.args[0]) == item:
+                cl = e.args[1].elts if isinstance(e.args[1], ast.Tuple) else [e.args[1]]
+                if all(norm(c) in CLS for c in cl):
+                    return any(kind in CLS[norm(c)] for c in cl)
+            if isinstance(e, ast.Compare) and len(e.ops) == 1 and norm(e.left) == f'type({item})' and \
+                    isinstance(e.ops[0], (ast.Is, ast.Eq, ast.IsNot, ast.NotEq)) and norm(e.comparators[0]) in CLS:
+                v = kind == norm(e.comparators[0])
+                return v if isinstance(e.ops[0], (ast.Is, ast.Eq)) else not v
+            return None
+        ft = lambda t, atoms=atoms: eval_bool(t, atoms)
+        may = reach_under(f, ft)
+        reads = any(g.node_for(s_) in may for s_ in subs)
+        normal, raised = outcome_under(f, ft)
+        if accept:
+            if not reads:
+                wrong.append(f'{kind} index never reaches the read')
+        else:
+            if reads and 'TypeError' in raised:
+                unknown = True           # both outcomes remain possible: a test could not be folded
+            elif reads:
+                wrong.append(f'{kind} index reaches NumPy (no TypeError)')
+            elif 'TypeError' not in raised:
+                wrong.append(f'{kind} index is rejected with {sorted(raised)} instead of TypeError')
+    inst = 'RaggedArray.__getitem__: integer indices (int, NumPy integers) reach the read; bool/float/slice/str end in ' \
+           'TypeError before anything is read (type tests folded per kind of index)'
+    if wrong:
+        ctx.bad('R-DOM', 'D1', f, None, 'integer-gate', inst, detail='; '.join(wrong))
+    elif unknown:
+        ctx.assume('R-DOM', 'D1', f, None, 'integer-gate', inst, detail='the type test is in a form the rule cannot fold')
+    else:
+        ctx.ok('R-DOM', 'D1', f, None, 'integer-gate', inst)
     isub = [s for s in subs if subarray_role(ctx, s.value, f) == 'INDICESDIR']
     vsub = [s for s in subs if subarray_role(ctx, s.value, f) == 'VALUESDIR']
     ok = len(isub) == 1 and len(vsub) == 1 and norm(isub[0].slice) == item and not defs_of(f.node, item)
@@ -259,8 +297,21 @@ def iter_arrays_rules(ctx, RA):
         [norm(a) for a in loops[0].iter.args] == ['startindex', 'endindex', 'stepsize']
     ctx.decide(ok, 'R-FLOW', 'D1', f, loops[0] if loops else None, 'range-verbatim',
                'iter_arrays iterates range(startindex, endindex, stepsize) with its parameters verbatim', detail='range arguments changed')
-    ok = any(isinstance(n, ast.If) and norm(n.test) == 'endindex is None' and
-             any(isinstance(s, ast.Assign) and norm(s.value) in ('self.narrays', 'len(self)') for s in n.body) for n in own_nodes(f.node))
+    # the value bound to endindex when it is None (if statement or conditional expression, either polarity)
+    from ..pathcond import runs_under
+    from .C20 import fold as _fold
+    ok = False
+    for v, st in defs_of(f.node, 'endindex'):
+        if runs_under(f, st, _trunc.folder({'endindex': None}, f)) is False:
+            continue
+        e = v
+        while isinstance(e, ast.IfExp):
+            try:
+                e = e.body if _fold(e.test, {'endindex': None}) else e.orelse
+            except Exception:
+                break
+        if norm(e) in ('self.narrays', 'len(self)', 'self.__len__()'):
+            ok = True
     ctx.decide(ok, 'R-TABLE', 'D1', f, None, 'endindex-default', 'endindex defaults to the number of subarrays', detail='default changed')
     ys = [n for n in own_nodes(f.node) if isinstance(n, ast.Yield)]
     i = norm(loops[0].target) if loops else 'i'
